@@ -115,6 +115,19 @@ def user_defined_fresh(repo: Repo, rep, P: str, rule: str):
             fresh = True
     elif isinstance(v, ast.Call) and norm(v.func) in ("deepcopy", "copy.deepcopy"):
         fresh = True
+    elif isinstance(v, ast.Call) and norm(v.func) == "map" and len(v.args) == 2:
+        # map(UserDefined, range(MAX)): one fresh object per index
+        k = repo.class_of_expr(v.args[0], mm, mm.file)
+        try:
+            count = len(repo.fold(v.args[1], ci=mm)) if isinstance(v.args[1], ast.Call) and norm(v.args[1].func) == "range" else None
+        except (NotConst, TypeError):
+            count = None
+        if k is not None and k.name == "UserDefined":
+            if count == MAXN:
+                fresh = True
+            else:
+                rep.violation(f"{P}.{rule}", con, norm(val), f"{count} user-defined controllers are built, the format has {MAXN}", where)
+                return
     elif isinstance(v, ast.Name) or (isinstance(v, ast.Subscript) and isinstance(v.value, ast.Name)) or isinstance(v, ast.Attribute):
         root = v
         while isinstance(root, (ast.Subscript, ast.Attribute)):
